@@ -19,6 +19,7 @@ fn main() {
         Some("pattern-search") => pattern::search(),
         Some("pattern") => pattern::one(&args[1..]),
         Some("pattern-new") => pattern::new_list(&args[1..]),
+        Some("policy-json") => pattern::policy_json(&args[1..]),
         Some("route") => service::route(&args[1..]),
         Some("meta") => service::meta(&args[1..]),
         Some("raw") => service::raw(&args[1..]),
